@@ -3,7 +3,7 @@ from harness import wire as W
 
 RULE = ("timestamp pairs around the 2^32 wrap, backward steps 1..10^6, ticks 0..10, elapsed ms around min wait / grace / max wait, "
         "tick counts aimed at frequencies straddling min/max scale and every rounding-bucket edge (with fractional parts), all packet "
-        "types incl. invalid ones and fragments (a fifth of them through ONE reused parsed Packet object whose fragment bit / type were updated since its last use), threshold variants; clock via replaced time.time_ns; non-trivial = model gives a "
+        "types incl. invalid ones and fragments, other options (also known kinds with a wrong length) in front of the timestamp option (a fifth of them through ONE reused parsed Packet object whose fragment bit / type were updated since its last use), threshold variants; clock via replaced time.time_ns; non-trivial = model gives a "
         "verdict or tps=-1; raw_frequency compared bit-for-bit with the correctly rounded num/den")
 GEN_TIE = ['uptime']     # round_frequency, the packet gate, the whole body of fingerprint_uptime and Uptime.__post_init__ are also TRANSLATED from /repo's source on every run and proved equal to the model (floats as exact rationals)
 ASSUMPTIONS = ["thresholds are sane: 0 < min scale <= max scale, min wait >= 1, grace > 0",
@@ -63,8 +63,13 @@ def generate(R, tier):
         yield mk(o, flags, ts, last, ms, "aimed", frag=R.random() < 0.03, has_ts=R.random() > 0.03, last_has_ts=R.random() > 0.03)
 
 
-def spec_of(flags, ts, has_ts, frag):
-    s = {"flags": flags, "seq": 7, "ack": 9 if flags & 0x10 else 0, "opts": ("0101" + W.o_ts(ts, 0)) if has_ts else "", "mf": bool(frag)}
+# other options in front of the timestamp option, some of them KNOWN kinds with a wrong (but in-bounds) length: they are flagged and skipped by
+# their announced length, the timestamp behind them is still read
+PRE_OPTS = ["", "", "", "", "020405b4", "03040700", "04030001", "0206aabbccdd0101", "08040001", "1e030101", "fe040000"]
+
+
+def spec_of(flags, ts, has_ts, frag, pre=0):
+    s = {"flags": flags, "seq": 7, "ack": 9 if flags & 0x10 else 0, "opts": (PRE_OPTS[pre % len(PRE_OPTS)] + "0101" + W.o_ts(ts, 0)) if has_ts else "", "mf": bool(frag)}
     return s
 
 
@@ -99,10 +104,10 @@ def impl_init():
                     min_timestamp_wait=o["min_wait"], max_timestamp_wait=o["max_wait"], timestamp_grace=o["grace"])
         # the clock starts somewhere else in every case: a receive time that is not taken when the signature is built shows up
         clock["ns"] = 1_700_000_000_000_000_000 + ((c["ts"] * 7919 + c["ms"] * 31 + c["last"]) % 10_000_000) * 1_000_000
-        lastp = U.scapy_from_spec(spec_of(2, c["last"], c["last_has_ts"], False))
+        lastp = U.scapy_from_spec(spec_of(2, c["last"], c["last_has_ts"], False, pre=c["last"] + c["ms"]))
         last = TCPPacketSignature.from_packet(parse_packet(lastp))
         clock["ns"] += c["ms"] * 1_000_000
-        pkt = U.scapy_from_spec(spec_of(c["flags"], c["ts"], c["has_ts"], c["frag"]))
+        pkt = U.scapy_from_spec(spec_of(c["flags"], c["ts"], c["has_ts"], c["frag"], pre=c["ts"] + c["ms"]))
         if (c["ts"] + c["ms"] + c["flags"]) % 5 == 0:
             # the caller keeps ONE parsed Packet (plain mutable dataclasses), has used it before while it described another packet
             # (fragment bit / flags), and has updated it since: the verdict follows what it says now
